@@ -51,6 +51,12 @@ def vcase(H, rng, X, cid, kw, init, n_to, chain=None, clock=None, scale=1.0):
             if not ok:
                 break
             ok = rec.fit(n2, warm=True, with_y=False, init=[])
+        if clock is not None and ok:
+            # a second cold fit of the same object after the (scripted) calibration: must be accepted whatever the
+            # calibration returned, and must again be a behaviour of reference FPS
+            vm.time = old
+            rec.fit(n_to, warm=False, with_y=False, init=init)
+            rec.events[[i for i, e in enumerate(rec.events) if e["a"] == "begin"][-1]]["valid"] = True
     finally:
         vm.time = old
     ff = getattr(obj, "full_fraction", None)
